@@ -134,11 +134,53 @@ class Inliner(object):
             for h in s.handlers:
               visit(h.body)
     visit(tree.body)
+    if self._module_level(tree):
+      changed[0] = True
     un = _unroll_literal_loops(tree.body, module)
     if un is not None:
       tree.body = un
       changed[0] = True
     return tree if changed[0] else None
+
+  def _module_level(self, tree):
+    """splice same-module helpers into the statements of the module body itself (`BUCKET = _make(settings.X, 60)`):
+    rules about module-level configuration read the spliced form.  Names of the helper's locals are renamed apart
+    from the module's globals."""
+    module = self._module
+    top = {x.id for st in tree.body if not isinstance(st, (ast.FunctionDef, ast.AsyncFunctionDef, ast.ClassDef))
+           for x in ast.walk(st) if isinstance(x, ast.Name)}
+    cands = {f.name for f in module.all_functions() if f.cls is None and f.parent_fn is None and f.name not in NEVER_INLINE}
+    if not (top & cands):
+      return False
+    import types as _t
+    pseudo = _t.SimpleNamespace(module=module, key=module.name + ':<module>', qualname='<module>', name='<module>', cls=None,
+                                parent_fn=None, variant=0, guard=None, params=[], node=tree, original=None, decorators=[],
+                                is_property=False, is_staticmethod=False, body=tree.body)
+    inlined = []
+    outer = getattr(self, '_cur_locals', None)
+    self._cur_locals = set(module.globals) | top
+    out, run = [], []
+    try:
+      def flush():
+        if run:
+          try:
+            out.extend(self._block(list(run), pseudo, [pseudo.key], inlined, 1))
+          except Exception:
+            out.extend(run)
+          del run[:]
+      for st in tree.body:
+        if isinstance(st, (ast.FunctionDef, ast.AsyncFunctionDef, ast.ClassDef, ast.Import, ast.ImportFrom)):
+          flush()
+          out.append(st)
+        else:
+          run.append(st)
+      flush()
+    finally:
+      self._cur_locals = outer if outer is not None else set()
+    if not [x for x in inlined if x != '<flag>']:
+      return False
+    tree.body = out
+    return True
 
   def _def(self, node):
     """inline into one (copied) def node in place; True if anything was spliced (here or in a nested def)."""
